@@ -350,6 +350,17 @@ def excel_tokens(data):
     return out
 
 
+def excel_tokens_raw(data):
+    """xlsx bytes -> [{name, header, rows:[[x, v1, v2, ...]]}] with the cell values as stored (no tracer decoding)"""
+    import openpyxl
+    wb = openpyxl.load_workbook(io.BytesIO(data))
+    out = []
+    for ws in wb.worksheets:
+        rows = list(ws.iter_rows(values_only=True))
+        out.append(dict(name=ws.title, header=[("" if c is None else str(c)) for c in rows[0]] if rows else [], rows=[list(r) for r in rows[1:]]))
+    return out
+
+
 def describe(case):
     m = case["model"]
     d = dict(route=case["route"], fs=m["fs"], els=m["els"], nr=m["nr"], nrho=m["nrho"], cut=fq(m["cut"]), cutrho=fq(m["cutrho"]),
